@@ -541,6 +541,29 @@ def structGetter (tb : ConvTable) (s : List HAny) (j : Nat) : Except Err SVal :=
   | some a => into_ tb a.1 a.2
   | none => .error .generic
 
+/-- How a getter loop of `#[derive(Steel)]` numbers the accessors of a tuple struct / tuple variant:
+`declared`: `fields.iter().enumerate()`, then `continue` on a `#[steel(ignore)]` field;
+`filtered`: `.filter(not ignored).enumerate()` — the index counts the non-ignored fields only, but is used as the
+tuple position read AND in the accessor's name.  (Named fields: the accessor is named after the field.) -/
+inductive GetterNumbering where
+  | declared | filtered
+deriving DecidableEq, Repr, Inhabited
+
+/-- the accessors generated for a field list with the given ignore marks: (index in the accessor's name, position read) -/
+def tupleGetters (num : GetterNumbering) (ign : List Bool) : List (Nat × Nat) :=
+  match num with
+  | .declared => (ign.zipIdx.filter (fun p => !p.1)).map (fun p => (p.2, p.2))
+  | .filtered => (List.range (ign.filter (fun b => !b)).length).map (fun j => (j, j))
+
+/-- what a script gets from the accessor named after position `k` of a constructed value `s`: `none` = there is no
+such accessor (free identifier) -/
+def deriveProbe (tb : ConvTable) (num : GetterNumbering) (ign : List Bool) (s : List HAny) (k : Nat) :
+    Option (Except Err SVal) :=
+  ((tupleGetters num ign).find? (fun a => a.1 == k)).map (fun a => structGetter tb s a.2)
+
+/-- `#[steel(ignore)]` fields are ignored only at the end (the one shape on which the two numberings agree) -/
+def trailingOnly (ign : List Bool) : Bool := (ign.dropWhile (fun b => !b)).all id
+
 /-- the index tables as found in `register_fn.rs` (16-parameter invocations read `args[14]` twice) -/
 def idxsAsFound (first n : Nat) : List Nat :=
   if first + n = 16 then (List.range' first n).map (fun i => if i = 13 then 14 else i)
